@@ -293,6 +293,11 @@ mod nonce;
 #[doc(hidden)]
 pub mod verif {
     pub use crate::zalsa_local::verif::*;
+
+    /// Hook H2: trace of the wait / transfer protocol.
+    pub mod protocol {
+        pub use crate::runtime::verif_protocol::*;
+    }
 }
 
 #[cfg(feature = "macros")]
